@@ -8,3 +8,4 @@ open BV
 #print axioms C17_chain_int
 #print axioms C17_chain_lex
 #print axioms C17_pad_drops_zeros_witness
+#print axioms C17_render_verbatim
